@@ -75,6 +75,22 @@ func (w *World) Publish(c int, topic string, qos packet.QOS, retain bool, empty 
 	return tag
 }
 
+// Republish sends a retained PUBLISH that repeats the payload of an earlier one on the same topic (a sensor reporting an
+// unchanged value) — possibly at another QoS: the retained message is the most recent publish, QoS included
+func (w *World) Republish(c int, topic, tag string, qos packet.QOS) {
+	p := &packet.Publish{Message: packet.Message{Topic: topic, QOS: qos, Retain: true, Payload: []byte(tag)}}
+	if qos > 0 {
+		p.ID = w.nextPid(c)
+	}
+	if qos == 2 {
+		for len(w.peers[c].open2) >= 7 {
+			w.Release(c)
+		}
+		w.peers[c].open2 = append(w.peers[c].open2, p.ID)
+	}
+	w.Send(c, p)
+}
+
 // Release sends the PUBREL for the oldest open QoS 2 publish of c
 func (w *World) Release(c int) bool {
 	pr := w.peers[c]
@@ -177,6 +193,7 @@ func randomScript(r *gen.Rng, o *out.W, prop string, p profile) {
 	w := newWorld(o, prop, p.window, p.queue, nil)
 	ids := []string{"A", "B", "C", "D", "E", "F"}[:p.clients]
 	cur := map[string]int{} // client id -> current connection
+	lastRetained := map[string]string{} // topic -> payload tag of the last retained publish of this script
 	budget := p.queue - 5   // never let a queue of an online client fill up (the model calls that unsupported)
 	sent := 0
 	for _, id := range ids {
@@ -236,7 +253,17 @@ func randomScript(r *gen.Rng, o *out.W, prop string, p profile) {
 			if p.wBad > 0 && r.Intn(5) == 0 {
 				tp = hostileTopics[r.Intn(len(hostileTopics))]
 			}
-			w.Publish(c, tp, p.qos[r.Intn(len(p.qos))], r.Intn(100) < p.retain, r.Intn(100) < p.retain/4)
+			if tag, ok := lastRetained[tp]; ok && p.retain > 0 && r.Intn(8) == 0 {
+				w.Republish(c, tp, tag, p.qos[r.Intn(len(p.qos))])
+				continue
+			}
+			ret, emp := r.Intn(100) < p.retain, r.Intn(100) < p.retain/4
+			tag := w.Publish(c, tp, p.qos[r.Intn(len(p.qos))], ret, emp)
+			if ret && !emp {
+				lastRetained[tp] = tag
+			} else if ret && emp {
+				delete(lastRetained, tp)
+			}
 		case 3:
 			if !w.AckOne(c, r.Intn(4)) {
 				w.Release(c)
